@@ -214,6 +214,18 @@ def trxcon_end_to_end(ctx, rng):
     finally:
         s.close()
     ctx.count("trxcon_commands_end_to_end", n)
+    # the SETFH composer against the specification on the lists that need the most room (16 characters per DCS / PCS pair: 62 fit,
+    # 63 and 64 must be refused cleanly), and on every size around the limit in the other bands
+    nspec = {}
+    for base in (1, 61, 512, 700, 822, 975, 512 | 0x8000, 747 | 0x8000):
+        for k in (1, 2, 31, 60, 61, 62, 63, 64):
+            chans = [(base & 0x8000) | (((base & 0x3ff) + i) if (base & 0x3ff) + i <= (1023 if (base & 0x3ff) >= 955 else 885 if (base & 0x3ff) >= 512 else 124) else i - 40) for i in range(k)]
+            r = TI.setfh_spec_check(ctx, rng.below(64), rng.below(64), chans, "c05")
+            nspec[r] = nspec.get(r, 0) + 1
+            ctx.nontrivial(("setfh-spec", base, k, r))
+            ctx.evaluations += 1
+    for r, k in nspec.items():
+        ctx.count("setfh_composer:" + r, k)
     # trxcon's command printers against the model of trx_if.c (every command type, boundary parameters)
     pc = TI.sample_cmds(rng, 60 if ctx.tier == "quick" else 400)
     pobs = [TI.parse_cmd_obs(t) for t in TI.run_lines([TI.cmd_line(c, fork=(c[0] == "setslot")) for c in pc])]
